@@ -387,6 +387,22 @@ func answersError(c *eng.Ctx, fn *ssa.Function, e ssa.Value, from eng.Loc, depth
 	nonNil := eng.PassEdges(fn, eng.ErrNotNil(e))
 	isNil := eng.PassEdges(fn, eng.ErrNil(e))
 	if len(nonNil) > 0 {
+		// before the error is examined nothing is answered: a success written on a path that never looked at the
+		// error is written for failed operations too
+		examined := eng.MergeEdges(nonNil, isNil)
+		if hit, _ := eng.Search(from, func(in ssa.Instruction) bool {
+			x, isC := in.(*ssa.Call)
+			if !isC {
+				return false
+			}
+			if eng.CalleeIs(x, "http.ResponseWriter).WriteHeader") {
+				k, isK := eng.ConstInt(x.Call.Args[0])
+				return !isK || k < 400
+			}
+			return eng.CalleeIs(x, "server.writeJsonQuiet")
+		}, eng.SearchOpt{Cut: examined}); hit != nil {
+			return false, "a response is written at " + c.P.Pos(eng.InstrPos(hit)) + " before the error was examined"
+		}
 		// blocks reachable while e is known non-nil
 		reach := map[*ssa.BasicBlock]bool{}
 		for _, st := range startsOf(nonNil) {
